@@ -371,4 +371,39 @@ def asCurlCommand (vs : Variants) (tbl : Table) (prep : Nat → List (Str × Str
 def codeSample (vs : Variants) (tbl : Table) (prep : Nat → List (Str × Str) → Prepared) (fd : FailureData) : Str :=
   asCurlCommand vs tbl prep fd.case fd.headers fd.verify
 
+/-! ### `get_excluded_headers()` (src/schemathesis/core/curl.py:50): how the table is built
+
+      CaseInsensitiveDict({"Content-Length": None, "Transfer-Encoding": None, SCHEMATHESIS_TEST_CASE_HEADER: None,
+                           **default_headers(), "User-Agent": USER_AGENT})
+
+  A Python dict display first (a later equal key replaces the value and keeps the position), then
+  `CaseInsensitiveDict.__init__` → `update` → `__setitem__` for every item (`_store[key.lower()] = (key, value)`,
+  an OrderedDict).  `requests.utils.default_headers()` is third-party code: its items are an input. -/
+
+/-- a dict display `{k₁: v₁, …, **d, …}` -/
+def pyDict {α : Type} (items : List (Str × α)) : List (Str × α) := items.foldl (fun d kv => dSet d kv.1 kv.2) []
+
+/-- `CaseInsensitiveDict.__setitem__`: an entry whose lower-cased name is already there is replaced in place
+    (spelling of the name and value), a new one goes to the end -/
+def cidSet : Table → Str → Option Str → Table
+  | [], k, v => [(k, v)]
+  | (k', v') :: rest, k, v => if lower k' = lower k then (k, v) :: rest else (k', v') :: cidSet rest k v
+
+/-- `CaseInsensitiveDict(d)` -/
+def cidOf (items : List (Str × Option Str)) : Table := items.foldl (fun t kv => cidSet t kv.1 kv.2) []
+
+def contentLength : Str := "Content-Length".toList
+def transferEncoding : Str := "Transfer-Encoding".toList
+def userAgent : Str := "User-Agent".toList
+
+/-- the items of the dict display of `get_excluded_headers` -/
+def excludedItems (defaults : List (Str × Str)) (ua caseIdHeader : Str) : List (Str × Option Str) :=
+  [(contentLength, none), (transferEncoding, none), (caseIdHeader, none)]
+    ++ defaults.map (fun kv => (kv.1, some kv.2)) ++ [(userAgent, some ua)]
+
+/-- `get_excluded_headers()`: `defaults` = `requests.utils.default_headers().items()`, `ua` = `USER_AGENT`,
+    `caseIdHeader` = `SCHEMATHESIS_TEST_CASE_HEADER` -/
+def excludedTable (defaults : List (Str × Str)) (ua caseIdHeader : Str) : Table :=
+  cidOf (pyDict (excludedItems defaults ua caseIdHeader))
+
 end SV.Model.C09
